@@ -9,6 +9,7 @@ import (
 	"fmt"
 	"io"
 	"os"
+	"strconv"
 	"sync"
 	"sync/atomic"
 	"time"
@@ -509,19 +510,44 @@ func (w *world) precommittedAlhs() [][32]byte {
 	return l
 }
 
-const waitLimit = 400 * time.Millisecond
+// blockLimit: how long a call that may legitimately block BEFORE its precommit (a replicated
+// transaction whose id is beyond the next one waits in inmemPrecommitWHub until its context ends) is
+// given before its context is cancelled. slowLimit: the bound for every other call; those cannot block
+// before the precommit, so a slow machine must never turn them into "cancelled" calls: the store
+// checks ctx.Err() in newOngoingTx and OngoingTx.commit, and a context cancelled by this harness
+// before the call got there makes a valid commit fail with nothing precommitted (seen once under
+// load: thorough seed 2 script 202, a 400 ms limit applied to every call).
+const blockLimit = 400 * time.Millisecond
+const slowLimit = 90 * time.Second
+const blockPolls = 2000
+
+var stallMs, _ = strconv.Atoi(os.Getenv("VH_C02_STALL_MS"))
 
 // runCommit starts the commit call in a goroutine and waits until it returned or the precommit
-// became visible.
-func (w *world) runCommit(repl bool, call func(ctx context.Context) (*store.TxHeader, error)) (ok bool, id uint64, alh []byte, stale []byte) {
+// became visible. expID: the id in the exported header of a replicated transaction, 0 otherwise.
+func (w *world) runCommit(repl bool, expID uint64, call func(ctx context.Context) (*store.TxHeader, error)) (ok bool, id uint64, alh []byte, stale []byte) {
 	before := w.st.LastPrecommittedTxID()
+	mayBlock := repl && expID > before+1
 	ctx, cancel := context.WithCancel(context.Background())
 	p := &pendingCall{done: make(chan callResult, 1), cancel: cancel, repl: repl, noAck: repl && w.extSeen}
+	var started atomic.Bool
 	go func() {
+		if stallMs > 0 && w.stepIdx%5 == 0 {
+			// test knob (VH_C02_STALL_MS): the call's goroutine is scheduled late
+			time.Sleep(time.Duration(stallMs) * time.Millisecond)
+		}
+		started.Store(true)
 		hdr, err := call(ctx)
 		p.done <- callResult{hdr, err}
 	}()
-	deadline := time.Now().Add(waitLimit)
+	limit := slowLimit
+	if mayBlock {
+		limit = blockLimit
+	}
+	// the clock of the limit starts when the call's goroutine runs, and the limit also needs a number
+	// of polls (each one yields the processor), so that a stalled process does not use it up
+	var deadline time.Time
+	polls := 0
 	finished := false
 	var res callResult
 	for {
@@ -536,7 +562,14 @@ func (w *world) runCommit(repl bool, call func(ctx context.Context) (*store.TxHe
 		if w.st.LastPrecommittedTxID() == before+1 {
 			break
 		}
-		if time.Now().After(deadline) {
+		if deadline.IsZero() {
+			if started.Load() {
+				deadline = time.Now().Add(limit)
+			}
+		} else if polls++; time.Now().After(deadline) && polls >= blockPolls {
+			if !mayBlock {
+				w.finding("commit-call-stuck: a commit call that cannot wait for another transaction neither returned nor precommitted within %v", slowLimit)
+			}
 			cancel()
 			res = <-p.done
 			finished = true
@@ -631,12 +664,12 @@ func (w *world) exec(s *Step) (term string, fatal bool) {
 				// header not serialisable (e.g. version 0 with metadata): not sent
 				ok = false
 			} else {
-				ok, id, alh, stale = w.runCommit(true, func(ctx context.Context) (*store.TxHeader, error) {
+				ok, id, alh, stale = w.runCommit(true, s.Exp.ID, func(ctx context.Context) (*store.TxHeader, error) {
 					return w.st.ReplicateTx(ctx, bs, s.SkipIC, false)
 				})
 			}
 		} else {
-			ok, id, alh, stale = w.runCommit(false, func(ctx context.Context) (*store.TxHeader, error) {
+			ok, id, alh, stale = w.runCommit(false, 0, func(ctx context.Context) (*store.TxHeader, error) {
 				tx, err := w.st.NewWriteOnlyTx(ctx)
 				if err != nil {
 					return nil, err
